@@ -395,7 +395,7 @@ func (e *Env) evalSel(x *Expr) SVal {
 	if ts := e.t.eng.specs.Types[typeName(ST)]; ts != nil {
 		if gs, ok := ts.GhostField[x.Name]; ok && p != nil {
 			gs = e.t.ghostSort(gs, ST)
-			c := e.t.comp("H."+originName(ST)+".$"+x.Name, "(Array Int "+gs+")")
+			c := e.t.comp(ghostCompName(originName(ST), x.Name, ts.GhostField[x.Name], gs), "(Array Int "+gs+")")
 			ref := p.Ref
 			if p.Kind != "obj" {
 				ref = e.t.termOfOpt(Val{P: p}) // a struct embedded by value: its ghost fields live at its address
@@ -723,6 +723,10 @@ func (e *Env) evalCall(x *Expr) SVal {
 		}
 		s := e.inState(func() string { return app("select", t.get(lc), ref) })
 		return SVal{S: eq(s, "0"), Sort: "Bool"}
+	case "arrof": // arrof(s): the byte array with content s (what a slice-to-array conversion yields)
+		v := e.eval(x.Args[0])
+		t.declareFun("arr$ofstr", []string{"Str"}, "(Array Int Int)")
+		return SVal{S: app("arr$ofstr", v.S), Sort: "(Array Int Int)"}
 	case "closed": // closed(ch): the channel has been closed
 		v := e.eval(x.Args[0])
 		cc := t.comp("CH.closed", "(Array Int Bool)")
